@@ -341,10 +341,12 @@ Definition input (c : cfg) (v : variant) (code id : Z) (k : Cls) (data : list Z)
   | KUnknown => rucEvent code id f
   end.
 
-(* One event.  ETimeout is "the restart timer fires": the pending timer is consumed
-   (time.AfterFunc fires once) and Timeout() runs.  Timeout() is also what runs when a timer
-   that was already stopped fires late (the callback was blocked on f.mu), so the event is
-   enabled in every state. *)
+(* One event.  ETimeout is "the restart timer expires": it can only happen while the timer is pending
+   (f.timer != nil); the pending timer is consumed (time.AfterFunc fires once) and Timeout() runs.
+   Without a pending timer there is no such event (the step is the identity).
+   What today's code does when a timer that was stopped or restarted fires LATE (its callback was
+   already waiting for f.mu) is [raw_timeout] below; fixes/C05_late_timer_fire.patch makes the timer
+   callback ignore such a fire, which is the semantics of ETimeout here. *)
 Definition step (c : cfg) (v : variant) (f : fsm) (e : Ev) : fsm :=
   let f := clear_out f in
   match e with
@@ -352,15 +354,27 @@ Definition step (c : cfg) (v : variant) (f : fsm) (e : Ev) : fsm :=
   | EDown => down f
   | EOpen => open c v f
   | EClose => close c f
-  | ETimeout => timeout (set_armed false f)
+  | ETimeout => if armed f then timeout (set_armed false f) else f
   | EInput code id k data => input c v code id k data f
   end.
+
+(* The timer callback of today's code (time.AfterFunc(f.restartTime, f.Timeout)): Timeout() runs
+   whether or not the timer is still the pending one, and f.timer is left as it is. *)
+Definition raw_timeout (f : fsm) : fsm := timeout (clear_out f).
+(* A timer that was pending in state f before an event, where f' is the state after the event, is
+   still the pending one iff the event neither stopped nor restarted it (startTimer is reached only
+   through scr / str / strRetransmit from a state with a pending timer). *)
+Definition is_scr_or_str (a : Act) : bool := match a with Scr _ | Str _ => true | _ => false end.
+Definition fire_still_valid (f f' : fsm) : bool :=
+  armed f && armed f' && negb (existsb is_scr_or_str (rev (out f'))).
 
 (* func (f *FSM) Restore() and func (f *FSM) Kill(): administrative entry points outside the RFC's event
    set (session restore after a crash, session teardown); silent by design.  They are not events of
    [Ev]; the correspondence check drives them as ops R and K. *)
-Definition restore (f : fsm) : fsm :=
-  clear_out f |> stopTimer |> set_st Opened |> set_restart 0 |> set_failc 0.
+Definition restore (fixed : bool) (c : cfg) (f : fsm) : fsm :=
+  clear_out f |> stopTimer |> set_st Opened
+              |> set_restart (if fixed then maxConf c else 0)   (* CELL Restore: restart counter *)
+              |> set_failc 0.
 Definition kill (f : fsm) : fsm := clear_out f |> stopTimer |> set_st Closed.
 
 Definition outs (f : fsm) : list Act := rev (out f).
@@ -521,6 +535,7 @@ Definition rfc1661 (s : St) (e : REv) : option (list RAct * St) :=
    - Configure-Ack/Nak/Reject whose Identifier is not that of the last Configure-Request sent
      (RFC 1661 5.2-5.4);
    - Echo-Request without a Magic-Number field;
+   - (not a packet) a timer expiry without a pending timer does not exist;
    - Protocol-Reject outside Opened (5.7); in Opened it is a non-catastrophic RXJ+.
    Protocol-Reject, Echo-Request, Echo-Reply and Discard-Request are LCP codes (RFC 1661 5.7-5.9); IPCP
    and IPv6CP define codes 1-7 only and treat every other code as unknown (RFC 1332 section 3,
@@ -530,7 +545,7 @@ Definition rfc1661 (s : St) (e : REv) : option (list RAct * St) :=
 Definition classify (c : cfg) (f : fsm) (e : Ev) : option REv :=
   match e with
   | EUp => Some RUp | EDown => Some RDown | EOpen => Some ROpen | EClose => Some RClose
-  | ETimeout => Some (if restart f >? 0 then RTOp else RTOm)
+  | ETimeout => if armed f then Some (if restart f >? 0 then RTOp else RTOm) else None
   | EInput code id k data =>
     if negb (lcp c) && lcp_only (code_of code) then Some RUC else
     match code_of code with
@@ -593,7 +608,7 @@ Definition counter_after (c : cfg) (f : fsm) (e : Ev) (acts : list Act) : Z :=
   if existsb is_zrc acts then 0
   else if existsb is_irc acts then (if existsb is_str acts then maxTerm c else maxConf c)
   else match e with
-       | ETimeout => if restart f >? 0 then restart f - 1 else restart f
+       | ETimeout => if armed f && (restart f >? 0) then restart f - 1 else restart f
        | _ => restart f
        end.
 
